@@ -72,6 +72,19 @@ class SegmentWorld(World):
         self.ec = ec            # custom delimiters: the segments then live inside Z messages declaring them
         segs = tables.segments(version)
         cands = [s for s in SEG_CANDIDATES if segs.get(s)]
+        self.open_fields = None
+        if seg is not None and (seg.startswith('Z') or (segs.get(seg) and segs[seg][-1].datatype == 'varies')):
+            # an open-ended segment (Z segment, or one whose last field is `varies`): any field number beyond the table is a
+            # repeatable field; three of them, apart from each other, stand for the rest
+            base = segs[seg][-1].num if segs.get(seg) else 0
+            nums = (base + 1, base + 4, base + 6)
+            dt = 'ST' if seg.startswith('Z') else 'varies'
+            self.seg = seg
+            self.rows = {'%s_%d' % (seg, k): tables.FieldRow(seg, '%s_%d' % (seg, k), k, 'leaf', dt, None, (0, -1), None, None,
+                                                           True, None) for k in nums}
+            self.open_fields = nums
+            cands = []
+            seg = None
         for s in ([seg] if seg else rng.sample(cands, len(cands))):
             rows = [r for r in gen.usable_rows(version, s) if _first_leaf_dt(version, r) in TEXTUAL]
             rep = [r for r in rows if r.card[1] == -1]
@@ -81,8 +94,9 @@ class SegmentWorld(World):
                 self.rows = {r.name: r for r in rep[:2] + single[:1]}
                 break
         else:
-            raise RuntimeError('no candidate segment in %s' % version)
-        allrows = segs[self.seg]
+            if self.open_fields is None:
+                raise RuntimeError('no candidate segment in %s' % version)
+        allrows = segs.get(self.seg) or []
         self.long = {r.name: r.long_name for r in self.rows.values() if _long_ok(core.Segment, r.long_name, allrows)}
         self.names = sorted(self.rows, key=lambda n: self.rows[n].num)
         self.hosts = {}
@@ -156,6 +170,10 @@ class SegmentWorld(World):
                 kinds += ['insert_view']
         if len(reps) >= 2 and allow_copy_elem:
             kinds += ['setidx_own']
+        if self.open_fields is not None and not self.seg.startswith('Z'):
+            # a field beyond the table of a varies-terminated segment exists only through its segment: Field('RDT_7') alone
+            # is an invalid name by design
+            kinds = [k for k in kinds if k not in ('add_new', 'insert_view')]
         if self.model[other][name]:
             kinds += ['copy']
             if allow_copy_elem:
@@ -827,7 +845,11 @@ def apply_wild(world, op):
             bad = core.Field('PID_1', version=world.version, validation_level=world.level)
         world.detached += [good, bad]
         offered = bad
-        G(lambda: setattr(el, 'children', [good, bad]))
+        lst = [good, bad]
+        if i % 2 and reps(other):
+            # ... followed by an element that is attached elsewhere: it is never reached and stays where it is
+            lst.append(reps(other)[0])
+        G(lambda: setattr(el, 'children', lst))
     elif k == 'f_settype':
         G(lambda: setattr(el, lname, 12345))
     elif k == 'f_value_badleaf':
